@@ -17,6 +17,8 @@
 (***************************************************************************)
 EXTENDS Naturals, Sequences, FiniteSets, TLC, TLCExt, Json, IOUtils
 
+CONSTANT Rest      \* TRUE: the switch is also taken at rest (all keys released); FALSE: only through release_all (C12's reading)
+
 Rec == ndJsonDeserialize(IOEnv.TABLE)
 Hdr == Rec[1].layouts
 Tab(i) == Rec[i + 1]
@@ -51,7 +53,7 @@ Step1(t, k) ==
   /\ UNCHANGED <<li, b, phase, phys2, bad>>
 
 SwitchRest ==
-  /\ phase = 1 /\ physA = {} /\ phase' = 2 /\ b' = Hdr[li].first
+  /\ Rest /\ phase = 1 /\ physA = {} /\ phase' = 2 /\ b' = Hdr[li].first
   /\ bad' = (IF held # {} THEN {"C06-held-at-rest"} ELSE {})
   /\ last' = [t |-> "REST", k |-> ""] /\ TLCSet(2, TLCGet(2) + 1)
   /\ UNCHANGED <<li, a, physA, phys2, held>>
